@@ -1021,7 +1021,10 @@ class Mailbox:
         if isinstance(notifications, str):
             notifications = [notifications]
 
-        for c in self.clients.values():
+        # NOTE: Pushing to a client can yield, and clients can come and go
+        #       while we are yielding: iterate over a copy.
+        #
+        for c in list(self.clients.values()):
             # Skip over the client we are not going to send notifications to.
             #
             if c == dont_notify:
@@ -1308,7 +1311,7 @@ class Mailbox:
         notifications = []
         notifications.append(f"* {num_msgs} EXISTS\r\n")
         notifications.append(f"* {num_recent} RECENT\r\n")
-        for c in self.clients.values():
+        for c in list(self.clients.values()):
             if c.pending_expunges():
                 c.pending_notifications.extend(notifications)
             else:
